@@ -525,7 +525,7 @@ def gen_call_forms(tier):
         dim = draw(st.sampled_from([1, 2, 3]))
         big = draw(st.sampled_from([False, False, False, True]))
         form = draw(st.sampled_from(["default", "scalar", "list", "list-iso"]))
-        case = {"shape": _draw_shape(draw, dim, big), "shape_as": draw(st.sampled_from(["tuple", "list"])),
+        case = {"shape": _draw_shape(draw, dim, big), "shape_as": draw(st.sampled_from(["tuple", "list", "tuple", "list", "int64-array", "int32-array"])),
                 "form": form, "big": big}
         if form == "scalar":
             case["vs"] = draw(st.sampled_from(_VOX))
@@ -541,7 +541,8 @@ def gen_call_forms(tier):
 def _construct(shape, shape_as, form, vs):
     """Grid(...) under one documented call form (shape: tuple, as documented, or list, as
     generate_grid passes it; voxel_size: omitted / float / list). Returns grid and the arguments."""
-    shape_arg = tuple(shape) if shape_as == "tuple" else list(shape)
+    shape_arg = {"tuple": tuple, "list": list, "int64-array": lambda x: np.array(x, dtype=np.int64),
+                 "int32-array": lambda x: np.array(x, dtype=np.int32)}[shape_as](shape)
     if form == "default":
         return darsia.Grid(shape_arg), shape_arg, None
     if form == "scalar":
@@ -572,8 +573,10 @@ def check_call_forms(case):
     shape, form = case["shape"], case["form"]
     t = {"dim": len(shape), "form": form, "shape_as": case["shape_as"]}
     g, shape_arg, vs_arg = _construct(shape, case["shape_as"], form, case.get("vs"))
-    if list(shape_arg) != list(shape) or type(shape_arg) is not (tuple if case["shape_as"] == "tuple" else list):
-        raise Violation("argument-changed:shape", f"shape argument is now {shape_arg!r}", t)
+    kind = {"tuple": tuple, "list": list}.get(case["shape_as"], np.ndarray)
+    if [int(x) for x in shape_arg] != list(shape) or type(shape_arg) is not kind:
+        raise Violation("argument-changed:shape", f"shape argument {list(shape)} ({case['shape_as']}) is now "
+                        f"{shape_arg!r}", t)
     if isinstance(vs_arg, list) and vs_arg != [float(v) for v in case["vs"]]:
         raise Violation("argument-changed:voxel_size", f"voxel_size argument {case['vs']} is now {vs_arg!r}", t)
     if [int(x) for x in g.shape] != list(shape) or int(g.dim) != len(shape):
@@ -679,8 +682,9 @@ PROP = Prop(
                  "dim >= 2: a face is interior iff both its cells have all tangential neighbours (unit test "
                  "test_compatibility for one direction, the source comment 'exterior_faces: all faces on the "
                  "outer boundary of the grid' for the other)",
-                 "documented call forms: shape as tuple (or list, as generate_grid passes it); voxel_size "
-                 "omitted, float or list"],
+                 "documented call forms: shape as tuple (or list, as generate_grid passes it; integer numpy "
+                 "arrays such as np.array(image.num_voxels) // 2 are accepted alike and are generated too); "
+                 "voxel_size omitted, float or list"],
     subs=[
         Sub("face_counts", check_face_counts, enum=enum_shapes, exhaustive=True, shards=_ONE),
         Sub("connectivity", check_connectivity, enum=enum_shapes, exhaustive=True, shards=_ONE),
